@@ -143,7 +143,7 @@ def check(prop, tier='quick', seed=0, only=None):
         q = {repr(c) for c in h.cases('quick')}
         cases = [c for c in cases if repr(c) in q] + [c for c in cases if repr(c) not in q]        # the quick tier's cases first
     if only: cases = [c for c in cases if only in repr(c)]
-    budget = getattr(h, 'BUDGET_S', {}).get(tier, 1500)
+    budget = int(os.environ.get('PYVC_BUDGET_S') or getattr(h, 'BUDGET_S', {}).get(tier, 1500))
     known = [k for k in load_known() if k.get('property') == prop and k.get('kind') == 'known']
     def outside_known(o):
         if o.get('inputs') is None or not hasattr(h, 'in_known_class'): return True
